@@ -44,7 +44,7 @@ struct Server {
     buf: Vec<u8>, idle: bool, pending: Vec<Vec<u8>>, lines: Vec<Vec<u8>>, violations: Vec<String>, changed: Vec<Vec<u8>>, in_list: Option<Vec<Vec<u8>>>,
     outbox: VecDeque<u8>, password: String, closed: bool, multi_changed: bool,
     art: Option<(Vec<u8>, usize, usize, bool)>, art_requests: Vec<Vec<u8>>, known: Option<Vec<Vec<u8>>>,
-    art_limit2: usize, art_cutlf: bool, barriers: Vec<usize>, sent_total: usize,
+    art_limit2: usize, art_cutlf: bool, barriers: Vec<usize>, sent_total: usize, ack_next_idle: bool, idle_acked: bool,
 }
 impl Server {
     fn send(&mut self, d: &[u8]) { self.outbox.extend(d.iter().copied()); self.sent_total += d.len(); }
@@ -56,6 +56,11 @@ impl Server {
     fn handle(&mut self, line: Vec<u8>) {
         self.lines.push(line.clone());
         let undelivered = !self.outbox.is_empty();
+        if line == b"idle" && self.ack_next_idle {
+            self.ack_next_idle = false; self.idle_acked = true;
+            self.send(b"ACK [4@0] {idle} you do not have permission for idle\n");
+            return;
+        }
         if line == b"idle" {
             if self.idle { self.violations.push("idle while already idling".into()); }
             if undelivered && self.in_list.is_none() { self.violations.push("request written before the previous reply was consumed: idle".into()); }
@@ -231,19 +236,21 @@ pub fn client(a: &[String]) {
             tokio::task::yield_now().await;
         }
         drop(conn);
-        let (client, mut events) = match connected.expect("connect finishes") {
+        let (client, events) = match connected.expect("connect finishes") {
             Ok(c) => { println!("connect=Ok"); c }
             Err(e) => { println!("connect=Err {e}"); run_tasks!(); for l in &server.borrow().lines { println!("line={}", String::from_utf8_lossy(l)); } return; }
         };
+        let mut events = Some(events);
         let mut clients = vec![client];
         let mut callers: Vec<Caller> = callers_spec.split('|').map(|c| Caller { script: c.split(';').filter(|s| !s.is_empty()).map(String::from).collect(), next: 0, fut: None, current: None, results: vec![], cancelled: vec![] }).collect();
         let mut steps_done: Vec<String> = Vec::new();
         let mut change_n = 0usize;
-        macro_rules! deliver { ($half:expr) => {{
+        macro_rules! deliver { ($half:expr) => { deliver!($half, usize::MAX) }; ($half:expr, $cut:expr) => {{
             let mut s = server.borrow_mut();
             if !s.outbox.is_empty() {
                 let mut e = s.outbox.iter().position(|b| *b == b'\n').map(|p| p + 1).unwrap_or(s.outbox.len());
                 if $half && e > 1 { e = (e / 2).max(1); }
+                if $cut != usize::MAX { e = e.min($cut).max(1); }
                 let d = s.sent_total - s.outbox.len();
                 if let Some(i) = s.barriers.iter().position(|b| d < *b && *b < d + e) { e = s.barriers[i] - d; s.barriers.remove(i); }
                 let out: Vec<u8> = s.outbox.drain(..e).collect();
@@ -267,6 +274,9 @@ pub fn client(a: &[String]) {
             else if let Some(i) = st.strip_prefix("cancel") { let i: usize = i.parse().unwrap(); let c = &mut callers[i]; c.fut = None; if let Some(r) = c.current.take() { c.cancelled.push(r); } }
             else if st == "deliver" { deliver!(false); }
             else if st == "deliver/2" { deliver!(true); }
+            else if let Some(n) = st.strip_prefix("deliver@") { let n: usize = n.parse().unwrap(); deliver!(false, n); }
+            else if st == "dropevents" { events = None; }
+            else if st == "fault:idleack" { server.borrow_mut().ack_next_idle = true; }
             else if let Some(n) = st.strip_prefix("change:") { server.borrow_mut().change(n.as_bytes()); change_n += 1; }
             else if st == "tick" { tokio::time::advance(Duration::from_millis(150)).await; pump!(); }
             else if st == "longtick" { tokio::time::advance(Duration::from_secs(60)).await; pump!(); }
@@ -294,6 +304,7 @@ pub fn client(a: &[String]) {
         for v in &s.violations { println!("violation={v}"); }
         for c in &s.changed { println!("changed={}", String::from_utf8_lossy(c)); }
         println!("server_idle={}", s.idle);
+        println!("idle_acked={}", s.idle_acked);
         println!("multi_changed={}", s.multi_changed);
         for r in &s.art_requests { println!("artreq={}", String::from_utf8_lossy(r)); }
         drop(s);
@@ -304,7 +315,7 @@ pub fn client(a: &[String]) {
         }
         println!("is_closed={}", clients.first().map(|c| c.is_connection_closed().to_string()).unwrap_or_else(|| "none".into()));
         // events: drain without blocking
-        loop {
+        while let Some(events) = events.as_mut() {
             let mut cx = Context::from_waker(&waker);
             let mut f = Box::pin(events.next());
             match f.as_mut().poll(&mut cx) {
